@@ -325,7 +325,10 @@ Definition cfg_get_key (c : cfg) (name : Z) : result keyconf :=
       if cfg_missing true then Err E_NOKEY else
       kc' <- (if cfg_follow_alias (negb (kc_alias kc =? 0)) then
                 if cfg_alias_one_level then
-                  match cfg_find c (kc_alias kc) with Some t => Ok t | None => Err E_ALIAS end
+                  match cfg_find c (kc_alias kc) with
+                  | Some t => if cfg_alias_chain_refused (negb (kc_alias t =? 0)) then Err E_ALIAS else Ok t     (* an alias of an alias *)
+                  | None => Err E_ALIAS
+                  end
                 else Ok kc
               else Ok kc) ;;
       if kc_token kc' =? 0 then Err E_NOTOKEN else Ok kc'
